@@ -25,7 +25,8 @@ type progGen struct {
 
 var numPool = []string{"0", "1", "2", "3", "7", "10", "42", "255", "256", "1000", "0.5", "1.5", "2.5", "0.1", "3.14",
 	"1e3", "1.5e2", "2e-3", "0x10", "0xff", "0b101", "0o17", "9007199254740993", "1e15", "123456789.125",
-	"0.000000001", "0.0000000005", "1e30", "9223372036854775807", "9223372036854775808", "1e308"}
+	"0.000000001", "0.0000000005", "1e30", "9223372036854775807", "9223372036854775808", "1e308",
+	"(0/0)", "(1/0)", "(0-1/0)", "(0*(0-1))", "(0-9223372036854775808)", "4611686018427387904", "1e21", "1e22"}
 var smallIntPool = []string{"0", "1", "2", "3", "4", "5"}
 var idxPool = []string{"0", "1", "2", "3", "5", "0.5", "1.9", "100", "1e30", "(0-1)", "(0-0.5)", "(0/0)", "(1/0)", "(0-1/0)", "9223372036854775808"}
 var strPool = []string{`""`, `"a"`, `"b"`, `"ab"`, `"hello"`, `"x y"`, `"é"`, `"中文"`, `"a\"b"`, `"a\\b"`, `"\n"`, `"\t"`, "`raw`", "`a\"b`", `"é"`, `"k1"`, `"k2"`}
